@@ -82,7 +82,7 @@ CHECKS = {
   "Trusts Kani/CBMC; hypot stubbed, error constructors trapped; p = 1 only.",
   "DESIGN.md 6/C14"),
  "C20": (True,
-  "For the nalgebra and ndarray bindings (2x3 / 3x2, any f64 bit pattern) CBMC proves against the same logical row-major oracle as for the dense backend (C03): element/row/column access, transpose, flattening and reshape to every compatible shape - also of a TRANSPOSED operand (nalgebra quick; ndarray thorough) - slicing, take, constructors; "
+  "For the nalgebra and ndarray bindings (2x3 / 3x2, any f64 bit pattern) CBMC proves against the same logical row-major oracle as for the dense backend (C03): element/row/column access, transpose, flattening and reshape to every compatible shape - also of a TRANSPOSED operand (nalgebra: quick tier; ndarray: thorough tier, so far inconclusive after the repair - too heavy) - slicing, take, constructors; "
   "on the integer lattice with mixed signs: sum/min/max/norms/max_diff, means, argmax, element-wise arithmetic, approximate_eq, dot and nalgebra matmul; incompatible shapes panic for binary arithmetic and approximate_eq returns false on both bindings. Several ndarray harnesses only fit the thorough tier (40 GB). "
   "ndarray matmul (inline assembly in matrixmultiply), the decompositions and every estimator on the foreign backends are outside.",
   "Trusts Kani/CBMC and the translation of the ndarray / nalgebra crates themselves; agreement between backends follows from agreement of each with the common oracle; ndarray cov is unimplemented (panics) - see DESIGN section 8.",
